@@ -128,11 +128,14 @@ def gen_script(rng):
             ol_open = True; nol += 1; bound += 1
             ol_max = max(num, ol_max)
         elif c < 0.76:
-            ops.append("P")
+            # the list is not consumed by coap_add_optlist_pdu: a second P would re-add lower numbers (insert branch,
+            # outside M's domain), so the list is deleted right away
+            ops.append("P"); ops.append("X")
             if ol_open:
                 cur = max(cur, ol_max)
             ol_open = False
             bound += nol
+            nol = 0; ol_max = 0
         elif c < 0.79:
             ops.append("X"); ol_open = False; nol = 0; ol_max = 0
         elif c < 0.86:
